@@ -94,14 +94,15 @@ def edits_of_workspace_edit(we, uri):
     return [first] + [files[k] for k in sorted(files, key=str)]
 
 
-def normalise(method, params, result, uri, legend):
+def normalise(method, params, result, uri, legend, multiline=False):
     """one response -> list of records (without 'lines')"""
     recs = []
     if result is None:
         return recs
     if method == "textDocument/semanticTokens/full":
         if isinstance(result, dict) and "data" in result:
-            recs.append({"kind": "semtok", "data": [clamp(x) for x in result["data"]], "ntypes": legend[0], "nmods": legend[1]})
+            recs.append({"kind": "semtok", "data": [clamp(x) for x in result["data"]], "ntypes": legend[0], "nmods": legend[1],
+                         "multiline": multiline})
     elif method == "textDocument/documentSymbol":
         nodes = []
 
@@ -242,8 +243,15 @@ def run(ctx):
                     else:
                         add(meth, L.position_request(meth, uri, [pl]))
         key = "d%d" % di
-        runs.append({"run": key, "sched": False, "steps": steps})
-        meta[key] = {"doc": d, "text": text, "lines": m["lines"], "reqs": reqs}
+        # the same document under both client capability settings: a client without multilineTokenSupport (all requests;
+        # multi-line tokens arrive as one piece per line) and a client with it (semantic tokens only)
+        runs.append({"run": key, "sched": False, "steps": steps, "caps": {"multilineTokenSupport": False}})
+        meta[key] = {"doc": d, "text": text, "lines": m["lines"], "reqs": reqs, "multiline": False}
+        st = "textDocument/semanticTokens/full"
+        runs.append({"run": "m%d" % di, "sched": False, "caps": {"multilineTokenSupport": True},
+                     "steps": [L.open_step(text=text), {"op": "req", "id": 1, "method": st, "params": L.method_table(uri=uri)[st]}]})
+        meta["m%d" % di] = {"doc": d, "text": text, "lines": m["lines"], "reqs": {1: (st, L.method_table(uri=uri)[st])},
+                            "multiline": True}
     path = os.path.join(ctx.work, "docs_cases.ndjson")
     with open(path, "w") as f:
         for r in runs:
@@ -289,11 +297,12 @@ def run(ctx):
                 # the harness substituted $ROOT; recover the real uri from any result that names it
                 root_uri = "file://" + root
             duri = uri.replace("$ROOT", root_uri)
-            for rec in normalise(method, params, res, duri, legend):
+            for rec in normalise(method, params, res, duri, legend, mt["multiline"]):
                 rec["lines"] = mt["lines"]
                 recs.append(rec)
                 origin.append((r["run"], e["id"], method))
-            ctx.count((json.dumps(mt["doc"]["stmts"]), mt["doc"]["crlf"], mt["doc"]["final"], method, json.dumps(params, sort_keys=True)),
+            ctx.count((json.dumps(mt["doc"]["stmts"]), mt["doc"]["crlf"], mt["doc"]["final"], mt["multiline"], method,
+                       json.dumps(params, sort_keys=True)),
                       nontrivial=res is not None)
     if not recs:
         if crashed:
@@ -322,6 +331,7 @@ def run(ctx):
         # mechanism keys: an InDoc failure that is entirely explained by a named idiom gets its own signature
         idiom = IDIOMS.get(rec["kind"])
         detail = {"document": mt["text"], "templates": mt["doc"], "request": mt["reqs"][rid][1], "record": rec,
+                  "client_multilineTokenSupport": mt["multiline"],
                   "failed_predicates": fails}
         for f in fails:
             if idiom and f == idiom[0]:
